@@ -12,8 +12,24 @@ fn n_programs(o: &Opts, quick: usize, thorough: usize) -> usize {
 pub fn plan(o: &Opts) -> Vec<GroupSpec> {
    match o.prop.as_str() {
       "C01" => plan_c01(o),
-      "C04" => plan_simple(o, "C04", 120, 1500, |r| { let l = vcore::rng::Src::chance(r, 30) || std::env::var("VERIF_C04_FORCE_LAT").is_ok(); gen::gen_strat(r, &GenCfg::core(), l) }),
-      "C02" => plan_par(o, "C02", 72, 720, true, |r| gen::gen_any(r, &GenCfg::core())),
+      // (every tenth program: negation and counting over a BYODS relation, which reads the provider's own indices)
+      "C04" => plan_simple(o, "C04", 120, 1500, |r| {
+         if vcore::rng::Src::chance(r, 10) {
+            let ds = *vcore::rng::Src::pick(r, &[vcore::ast::Ds::EqRel, vcore::ast::Ds::TrRel, vcore::ast::Ds::TrRelUf]);
+            let ternary = vcore::rng::Src::chance(r, 40);
+            return vcore::gen_ds::gen_byods(r, &GenCfg::core(), ds, ternary);
+         }
+         let l = vcore::rng::Src::chance(r, 30) || std::env::var("VERIF_C04_FORCE_LAT").is_ok();
+         gen::gen_strat(r, &GenCfg::core(), l)
+      }),
+      // (every fifth program is built around a binary eqrel relation, the provider that has a parallel implementation)
+      "C02" => plan_par(o, "C02", 72, 720, true, |r| {
+         if vcore::rng::Src::chance(r, 22) {
+            vcore::gen_ds::gen_byods(r, &GenCfg::core(), vcore::ast::Ds::EqRel, false)
+         } else {
+            gen::gen_any(r, &GenCfg::core())
+         }
+      }),
       "C05" => plan_par(o, "C05", 96, 960, false, |r| gen::gen_rederive(r, &GenCfg::core())),
       "C06" => plan_c06(o),
       "C07" => plan_c07(o),
@@ -58,7 +74,7 @@ fn plan_simple(o: &Opts, prop: &str, quick: usize, thorough: usize, f: impl Fn(&
          let mut members = vec![MemberSpec { prog: prog.clone(), opts: PrintOpts::plain(Kind::Ascent), meta: meta(&base, "ser", Kind::Ascent, true) }];
          // C03 / C04: every second program also in its parallel form (lattices, aggregates and negation use other index
          // types and another head update there)
-         if (prop == "C04" || prop == "C03") && i % 2 == 1 && gen::par_rejects(&prog).is_none() {
+         if (prop == "C04" || prop == "C03") && i % 2 == 1 && gen::par_rejects(&prog).is_none() && prog.rels.iter().all(|d| d.ds.is_none()) {
             members.push(MemberSpec { prog, opts: PrintOpts::plain(Kind::AscentPar), meta: meta(&base, "par", Kind::AscentPar, false) });
          }
          GroupSpec { members }
@@ -90,7 +106,8 @@ fn plan_par(o: &Opts, prop: &str, quick: usize, thorough: usize, all_forms: bool
          m.attrs = opts.attrs.clone();
          members.push(MemberSpec { prog: prog.clone(), opts, meta: m });
          let no_nullary = prog.rels.iter().all(|d| !d.cols.is_empty());
-         if i % 3 == 0 && no_nullary {
+         let byods = prog.rels.iter().any(|d| d.ds.is_some());
+         if i % 3 == 0 && no_nullary && !byods {
             members.push(MemberSpec {
                prog: prog.clone(),
                opts: PrintOpts::plain(Kind::AscentRunPar),
@@ -201,7 +218,18 @@ fn plan_c06(o: &Opts) -> Vec<GroupSpec> {
       let uninterpreted = i % 4 == 3;
       let mut cfg = GenCfg::core();
       cfg.uninterpreted = uninterpreted;
-      let prog = if uninterpreted { gen::gen_core(&mut r, &cfg) } else { gen::gen_any(&mut r, &cfg) };
+      // every sixth program has in-program macros (names of call-site variables must not matter there either)
+      let with_macros = i % 6 == 5;
+      let prog = if uninterpreted {
+         gen::gen_core(&mut r, &cfg)
+      } else if with_macros {
+         vcore::gen_mac::gen_macros(&mut r, &cfg)
+      } else {
+         gen::gen_any(&mut r, &cfg)
+      };
+      if with_macros && (prog.macros.is_empty() || gen::kf2_shape(&xform::expand_macros(&prog))) {
+         continue;
+      }
       let base = format!("C06-s{}-{}", o.seed, i);
       let mut members =
          vec![MemberSpec { prog: prog.clone(), opts: PrintOpts::plain(Kind::Ascent), meta: meta(&base, "base", Kind::Ascent, true) }];
@@ -209,6 +237,11 @@ fn plan_c06(o: &Opts) -> Vec<GroupSpec> {
       // 3-4 variants chosen by seed
       let mut idx: Vec<usize> = (0..kinds.len()).collect();
       vcore::rng::Src::shuffle(&mut r, &mut idx);
+      if with_macros {
+         // the renaming variant always
+         idx.retain(|&k| k != 4);
+         idx.insert(0, 4);
+      }
       for &k in idx.iter().take(3) {
          let (vp, rel_map) = xform::variant06(&mut r, &prog, &kinds[k]);
          if gen::kf2_shape(&vp) && GenCfg::core().excluded("KF-2") {
@@ -276,6 +309,10 @@ fn plan_c07(o: &Opts) -> Vec<GroupSpec> {
       let base = format!("C07-s{}-{}", o.seed, i);
       let mut members =
          vec![MemberSpec { prog: prog.clone(), opts: PrintOpts::plain(Kind::Ascent), meta: meta(&base, "sugared", Kind::Ascent, true) }];
+      // the sugared form also as ascent_par! in every third group (its plans use other index types than the expansion's)
+      if i % 3 == 2 && gen::par_rejects(&prog).is_none() {
+         members.push(MemberSpec { prog: prog.clone(), opts: PrintOpts::plain(Kind::AscentPar), meta: meta(&base, "sugared_par", Kind::AscentPar, false) });
+      }
       for (name, split) in [("core", false), ("core_split_joins", true)] {
          if name == "core_split_joins" && i % 2 == 1 {
             continue;
